@@ -559,7 +559,11 @@ func lfsTracked(w *gitx.World, scratch string, s *snap, commit string) map[strin
 	}
 	args := []string{"check-attr", "--cached", "--stdin", "-z", "filter"}
 	if s.bareRepo() {
-		args = append([]string{"--work-tree=" + scratch}, args...)
+		// check-attr needs a work tree; it must not be an ancestor of the repository, or the paths would be taken
+		// relative to the repository's position inside it
+		wt := filepath.Join(scratch, "empty-worktree")
+		os.MkdirAll(wt, 0755)
+		args = append([]string{"--work-tree=" + wt}, args...)
 	}
 	r = w.RunIn(s.repo, []byte(strings.Join(paths, "\x00")+"\x00"), env, "git", args...)
 	checkTimeout(r)
